@@ -83,7 +83,7 @@ func copyTree(src, dst string) error {
 // with --seeded) to a scratch copy of the working tree and runs the owning
 // check against it.
 func selftestSensitivity(args []string) error {
-	suite, seeded := false, false
+	suite, seeded, benign := false, false, false
 	only := ""
 	budget := "90"
 	for i := 0; i < len(args); i++ {
@@ -92,6 +92,8 @@ func selftestSensitivity(args []string) error {
 			suite = true
 		case "--seeded":
 			seeded = true
+		case "--benign":
+			benign = true
 		case "--only":
 			i++
 			only = args[i]
@@ -123,6 +125,9 @@ func selftestSensitivity(args []string) error {
 		if only != "" && !strings.Contains(e.Name, only) {
 			continue
 		}
+		if (e.Property == "BENIGN") != benign {
+			continue
+		}
 		scratch, err := os.MkdirTemp("", "verifmut-")
 		if err != nil {
 			return machinery("%v", err)
@@ -147,6 +152,38 @@ func selftestSensitivity(args []string) error {
 			if !ok {
 				fmt.Printf("%-40s suite FAILS: %s\n", e.Name, firstLines(tail(o, 600), 6))
 			}
+		}
+		if benign {
+			// a legitimate change: every check must stay silent (exit 0)
+			t0 := time.Now()
+			verdict := "silent"
+			for _, prop := range []string{"C13", "C14", "C17", "C19"} {
+				cmd := exec.Command(self, "check", prop, "quick")
+				cmd.Env = append(os.Environ(), "VERIF_REPO="+tree, "VERIF_OUT="+outDir, "VERIF_BUDGET_S="+budget, "VERIF_ROOT="+verif)
+				var out bytes.Buffer
+				cmd.Stdout, cmd.Stderr = &out, &out
+				err := cmd.Run()
+				code := 0
+				var ee *exec.ExitError
+				if errors.As(err, &ee) {
+					code = ee.ExitCode()
+				}
+				if code != 0 {
+					verdict = fmt.Sprintf("FALSE ALARM or failure: %s exit %d: %s", prop, code, firstLines(tail(out.String(), 700), 6))
+					break
+				}
+			}
+			silent := verdict == "silent"
+			e.Detected = &silent
+			e.DetectS = time.Since(t0).Seconds()
+			e.Class = verdict
+			sp := ""
+			if e.SuitePasses != nil {
+				sp = fmt.Sprintf(" suite_passes=%v", *e.SuitePasses)
+			}
+			fmt.Printf("%-44s BENIGN %5.1fs%s  %s\n", e.Name, e.DetectS, sp, verdict)
+			os.RemoveAll(scratch)
+			continue
 		}
 		t0 := time.Now()
 		cmd := exec.Command(self, "check", e.Property, "quick")
